@@ -2,14 +2,24 @@ from rtamt.syntax.ast.visitor.ltl.ast_visitor import LtlAstVisitor
 from rtamt.exception.exception import RTAMTException
 from rtamt.explanation.ltl.discrete_time.explanations import *
 
+class Explanations(dict):
+    # The same name (a variable, a repeated sub-formula) can be explained several
+    # times, once per occurrence: the intervals of all occurrences are kept.
+    def __setitem__(self, key, intervals):
+        if key in self:
+            intervals = interval_union([list(i) for i in self[key]] + [list(i) for i in intervals])
+        dict.__setitem__(self, key, intervals)
+
+
 class LTLExplainer(LtlAstVisitor):
 
     def __init__(self):
         super().__init__()
-        self.explanations = dict()
+        self.explanations = Explanations()
 
     def explain(self, spec):
         self.spec = spec
+        self.explanations = Explanations()
         for spec in self.spec.specs:
             top_signal = self.spec.results[spec]
             if top_signal[0] < 0:
